@@ -76,20 +76,34 @@ Definition step_thread (prog : program) (s : Z) (t : thread) : Z * thread * even
     end
   end.
 
-(** thread [i] of [n] takes a step (ids [>= n] do nothing) *)
-Definition step (n : nat) (prog : program) (st : state) (i : nat) : state * event :=
+(** Several paths.  One call of the real function follows one of several straight-line
+    paths: the ordinary one, or one on which a node function or a handler panics and the
+    deferred functions run during the unwinding.  Threads are anonymous and unbounded in
+    number and a call that has returned is back at pc 0 holding nothing, so "a goroutine
+    makes calls that follow various paths" is the same system as "every call is a thread
+    of its own": thread [i] runs the path [pf i], for an arbitrary assignment [pf]. *)
+Definition stepf (n : nat) (pf : nat -> program) (st : state) (i : nat) : state * event :=
   if Nat.ltb i n then
-    let '(s', t', e) := step_thread prog (status st) (threads st i) in
+    let '(s', t', e) := step_thread (pf i) (status st) (threads st i) in
     (State s' (upd (threads st) i t'), e)
   else (st, EvIdle).
 
 Definition schedule := list nat.
 
-Fixpoint exec_from (n : nat) (prog : program) (st : state) (sch : schedule) : state :=
+Fixpoint exec_fromf (n : nat) (pf : nat -> program) (st : state) (sch : schedule) : state :=
   match sch with
   | [] => st
-  | i :: sch => exec_from n prog (fst (step n prog st i)) sch
+  | i :: sch => exec_fromf n pf (fst (stepf n pf st i)) sch
   end.
+
+Definition execf (n : nat) (pf : nat -> program) (sch : schedule) : state := exec_fromf n pf init sch.
+
+(** thread [i] of [n] takes a step (ids [>= n] do nothing); every thread runs [prog] *)
+Definition step (n : nat) (prog : program) (st : state) (i : nat) : state * event :=
+  stepf n (fun _ => prog) st i.
+
+Definition exec_from (n : nat) (prog : program) (st : state) (sch : schedule) : state :=
+  exec_fromf n (fun _ => prog) st sch.
 
 Definition exec (n : nat) (prog : program) (sch : schedule) : state := exec_from n prog init sch.
 
@@ -117,6 +131,13 @@ Definition in_node_functions (prog : program) (t : thread) : bool :=
 
 Definition is_probe (a : action) : bool :=
   match a with Load | ExitIfBusy => true | _ => false end.
+
+(** index of the first action that is not a mere look at the word *)
+Fixpoint acq_index (prog : program) : nat :=
+  match prog with
+  | a :: prog' => if is_probe a then S (acq_index prog') else 0%nat
+  | [] => 0%nat
+  end.
 
 (** The first action that can let a thread pass -- the first one that is not a mere look
     at the word -- is a compare-and-swap from 0 to a non-zero value.  In particular
@@ -167,6 +188,22 @@ Fixpoint releases_last (prog : program) : bool :=
   | [] => false
   | a :: prog' => if is_write a then write_nonzero a && good_body prog' else releases_last prog'
   end.
+
+(** both hypotheses of the mutual-exclusion theorem, for one path *)
+Definition good_path (prog : program) : bool := acquires_atomically prog && releases_last prog.
+
+(** two threads on two given paths: a schedule after which both are inside Work/Handlers *)
+Fixpoint find_overlap2 (pa pb : program) (fuel : nat) (st : state) (acc : schedule) : option schedule :=
+  let pf := fun i => if Nat.eqb i 0 then pa else pb in
+  if at_work pa (threads st 0%nat) && at_work pb (threads st 1%nat) then Some (rev acc)
+  else match fuel with
+       | O => None
+       | S fuel =>
+           match find_overlap2 pa pb fuel (fst (stepf 2 pf st 0%nat)) (0%nat :: acc) with
+           | Some s => Some s
+           | None => find_overlap2 pa pb fuel (fst (stepf 2 pf st 1%nat)) (1%nat :: acc)
+           end
+       end.
 
 (** ** The shapes this development talks about *)
 
